@@ -169,6 +169,14 @@ class HeapSpace:
         if key.endswith("#n"):
             x = z3.Const("x!len", RefS)
             out.append(z3.ForAll([x], z3.Select(arr, x) >= 0, patterns=[z3.Select(arr, x)]))
+        if key.endswith(("#valn", "#cnt")):
+            # lengths of the lists stored in a dict / number of keys: non-negative in every reachable heap
+            x = z3.Const("x!len", RefS)
+            if key.endswith("#cnt"):
+                out.append(z3.ForAll([x], z3.Select(arr, x) >= 0, patterns=[z3.Select(arr, x)]))
+            else:
+                kk = z3.Const("k!len", arr.sort().range().domain())
+                out.append(z3.ForAll([x, kk], z3.Select(z3.Select(arr, x), kk) >= 0, patterns=[z3.Select(z3.Select(arr, x), kk)]))
         return out
 
     born_before = None
